@@ -34,13 +34,14 @@ func (e *Engine) loopClauses(s ast.Stmt, kind string) []*Clause {
 
 // havoc set of a loop body
 type havocSet struct {
+	arr    map[string]bool // array mode: "@consumed", "@sent", "@closed", "@nextid"
 	vars   map[types.Object]bool
 	mem    map[string]bool  // scalar mem keys
 	fields map[string]VTerm // refs whose fields are all havoced
 }
 
 func (e *Engine) collectHavoc(nodes []ast.Node, st *State) *havocSet {
-	h := &havocSet{vars: map[types.Object]bool{}, mem: map[string]bool{}, fields: map[string]VTerm{}}
+	h := &havocSet{vars: map[types.Object]bool{}, mem: map[string]bool{}, fields: map[string]VTerm{}, arr: map[string]bool{}}
 	var streamOf func(x ast.Expr) (VStream, bool)
 	streamOf = func(x ast.Expr) (vs VStream, ok bool) {
 		defer func() {
@@ -60,6 +61,10 @@ func (e *Engine) collectHavoc(nodes []ast.Node, st *State) *havocSet {
 		return
 	}
 	markRecv := func(x ast.Expr) {
+		if e.arrayMode {
+			h.arr["@consumed"] = true
+			return
+		}
 		if s, ok := streamOf(x); ok {
 			h.mem["consumed:"+s.ID.String()] = true
 		} else {
@@ -67,6 +72,11 @@ func (e *Engine) collectHavoc(nodes []ast.Node, st *State) *havocSet {
 		}
 	}
 	markSend := func(x ast.Expr) {
+		if e.arrayMode {
+			h.arr["@sent"] = true
+			h.arr["@closed"] = true
+			return
+		}
 		if s, ok := streamOf(x); ok {
 			h.mem["sent:"+s.ID.String()] = true
 			h.mem["closed:"+s.ID.String()] = true
@@ -138,11 +148,27 @@ func (e *Engine) collectHavoc(nodes []ast.Node, st *State) *havocSet {
 				markSend(x.Args[0])
 				return true
 			}
+			if id, ok := x.Fun.(*ast.Ident); ok && id.Name == "make" && e.arrayMode && len(x.Args) > 0 {
+				if t := e.info().Types[x.Args[0]].Type; t != nil && isChan(t) {
+					for _, k := range []string{"@consumed", "@sent", "@closed", "@nextid"} {
+						h.arr[k] = true
+					}
+				}
+			}
+			if e.arrayMode {
+				if tv, ok := e.info().Types[x]; ok && tv.Type != nil && typeHasChan(tv.Type) {
+					h.arr["@nextid"] = true
+					h.arr["@consumed"] = true
+				}
+			}
 			// stream-typed and ref-typed arguments
 			for _, a := range x.Args {
 				t := e.info().Types[a].Type
 				if t == nil {
 					continue
+				}
+				if sl, ok := t.Underlying().(*types.Slice); ok && isChan(sl.Elem()) && e.arrayMode {
+					h.arr["@consumed"] = true
 				}
 				if c, ok := t.Underlying().(*types.Chan); ok {
 					if c.Dir() != types.SendOnly {
@@ -184,7 +210,28 @@ func (e *Engine) collectHavoc(nodes []ast.Node, st *State) *havocSet {
 	return h
 }
 
+func typeHasChan(t types.Type) bool {
+	switch u := t.Underlying().(type) {
+	case *types.Chan:
+		return true
+	case *types.Slice:
+		return typeHasChan(u.Elem())
+	case *types.Tuple:
+		for i := 0; i < u.Len(); i++ {
+			if typeHasChan(u.At(i).Type()) {
+				return true
+			}
+		}
+	}
+	return false
+}
+
 func (e *Engine) applyHavoc(h *havocSet, st *State) {
+	for _, k := range []string{"@nextid", "@consumed", "@sent", "@closed"} {
+		if h.arr[k] {
+			e.freshCursorArray(st, k)
+		}
+	}
 	for o := range h.vars {
 		old, ok := st.vars[o]
 		if !ok {
@@ -388,7 +435,11 @@ func (e *Engine) execRangeChan(x *ast.RangeStmt, st *State) []Out {
 	}
 	e.assertInvariants(x, st, pos, "establish")
 	h := e.collectHavoc([]ast.Node{x.Body}, st)
-	h.mem["consumed:"+ch.ID.String()] = true
+	if e.arrayMode {
+		h.arr["@consumed"] = true
+	} else {
+		h.mem["consumed:"+ch.ID.String()] = true
+	}
 	if x.Key != nil {
 		if id, ok := x.Key.(*ast.Ident); ok && id.Name != "_" {
 			if o := e.info().ObjectOf(id); o != nil {
@@ -413,7 +464,7 @@ func (e *Engine) execRangeChan(x *ast.RangeStmt, st *State) []Out {
 	body := head.clone()
 	body.assume(okT)
 	v := e.sel(ch, c)
-	body.mem["consumed:"+ch.ID.String()] = mkArith("+", c, mkInt(1))
+	e.setConsumed(body, ch.ID, mkArith("+", c, mkInt(1)))
 	if x.Key != nil {
 		if x.Tok == token.DEFINE {
 			if id, ok := x.Key.(*ast.Ident); ok && id.Name != "_" {
@@ -459,6 +510,20 @@ func (e *Engine) execRangeSlice(x *ast.RangeStmt, st *State, u *types.Slice) []O
 					s.vars[e.info().Defs[id]] = v
 				} else {
 					e.assignTo(x.Value, v, s)
+				}
+			}
+		}
+	}
+	// `for _, c := range cs { defer close(c) }`: one deferred bulk close of every element
+	if len(x.Body.List) == 1 {
+		if ds, ok := x.Body.List[0].(*ast.DeferStmt); ok {
+			if id, ok := ds.Call.Fun.(*ast.Ident); ok && id.Name == "close" && len(ds.Call.Args) == 1 {
+				if av, ok := ds.Call.Args[0].(*ast.Ident); ok && x.Value != nil {
+					if vv, ok := x.Value.(*ast.Ident); ok && vv.Name == av.Name && isChan(sl.Elem) {
+						cp := sl
+						st.defers = append(st.defers, deferred{bulk: &cp, where: e.src(ds)})
+						return []Out{{st: st}}
+					}
 				}
 			}
 		}
